@@ -238,6 +238,55 @@ def other_tool_pairs():
     add("symlink.input-added", "inputs", sl, mut(sl, inputs=["s1", "s2"]))
     add("symlink.contents-input-boundary", "contents|inputs", mut(sl, contents="ab", inputs=["c"]),
         mut(sl, contents="a", inputs=["bc"]), cls=None)
+    # tools that are never executed here (they would need a compiler): signatures only
+    cl = {"name": "K", "tool": "clang", "inputs": ["s1"], "outputs": ["k.o"], "args": ["cc", "-c", "s1", "-o", "k.o"],
+          "attrs": {"deps": "k.d"}}
+    add("clang.name", "name", cl, mut(cl, name="K2"))
+    add("clang.arg", "args", cl, setarg(cl, 1, "-S"))
+    add("clang.arg-boundary", "args", mut(cl, args=["cc", "ab", "c"]), mut(cl, args=["cc", "a", "bc"]))
+    add("clang.input", "inputs", cl, mut(cl, inputs=["s2"]))
+    add("clang.output", "outputs", cl, mut(cl, outputs=["k2.o"]))
+    add("clang.deps-path", "deps", cl, mut(cl, attr_deps="k2.d"), cls="C09.signature-collision-clang-deps-path")
+    add("clang.deps-added", "deps", mut(cl, attr_deps=None), cl, cls="C09.signature-collision-clang-deps-path")
+    sw = {"name": "W", "tool": "swift-compiler", "inputs": ["a.swift"], "outputs": ["a.o"],
+          "attrs": {"executable": "swiftc", "module-name": "M", "module-output-path": "M.swiftmodule", "sources": ["a.swift"],
+                    "objects": ["a.o"], "import-paths": ["inc"], "temps-path": "tmp", "other-args": ["-g"], "is-library": "true"}}
+
+    def swm(**kw):
+        n = copy.deepcopy(sw)
+        for k, v in kw.items():
+            n["attrs"][k.replace("_", "-")] = v
+        return n
+
+    add("swift.name", "name", sw, mut(sw, name="W2"))
+    add("swift.executable", "executable", sw, swm(executable="swiftc2"))
+    add("swift.module-name", "module-name", sw, swm(module_name="N"))
+    add("swift.module-output-path", "module-output-path", sw, swm(module_output_path="N.swiftmodule"))
+    add("swift.sources", "sources", sw, swm(sources=["a.swift", "b.swift"]))
+    add("swift.objects", "objects", sw, swm(objects=["b.o"]))
+    add("swift.import-paths", "import-paths", sw, swm(import_paths=["inc", "inc2"]))
+    add("swift.temps-path", "temps-path", sw, swm(temps_path="tmp2"))
+    add("swift.other-args", "other-args", sw, swm(other_args=["-g", "-O"]))
+    add("swift.is-library", "is-library", sw, swm(is_library="false"))
+    add("swift.sources-objects-boundary", "sources|objects", swm(sources=["a", "b"], objects=["c"]),
+        swm(sources=["a"], objects=["b", "c"]))
+    add("swift.wmo", "enable-whole-module-optimization", sw, swm(enable_whole_module_optimization="true"))
+    wmo = swm(enable_whole_module_optimization="true", num_threads="2")
+    add("swift.num-threads", "num-threads", wmo, swm(enable_whole_module_optimization="true", num_threads="4"))
+    add("swift.wmo-off", "enable-whole-module-optimization", wmo, swm(num_threads="2"))
+    shl = {"name": "SL", "tool": "shared-library", "inputs": ["a.o", "b.o"], "outputs": ["lib.so"],
+           "attrs": {"executable": "cc", "compiler-style": "clang", "other-args": ["-lm"]}}
+    add("shlib.name", "name", shl, mut(shl, name="SL2"))
+    add("shlib.executable", "executable", shl, mut(shl, attr_executable="cc2"))
+    add("shlib.compiler-style", "compiler-style", shl, mut(shl, attr_compiler_style="swiftc"))
+    add("shlib.other-args", "other-args", shl, mut(shl, attr_other_args=["-lm", "-lz"]))
+    add("shlib.other-args-boundary", "other-args", mut(shl, attr_other_args=["ab", "c"]), mut(shl, attr_other_args=["a", "bc"]))
+    add("shlib.input", "inputs", shl, mut(shl, inputs=["a.o"]))
+    add("shlib.output", "outputs", shl, mut(shl, outputs=["lib2.so"]))
+    ar = {"name": "AR", "tool": "archive", "inputs": ["a.o", "b.o"], "outputs": ["lib.a"], "attrs": {}}
+    add("archive.name", "name", ar, mut(ar, name="AR2"))
+    add("archive.input", "inputs", ar, mut(ar, inputs=["a.o"]))
+    add("archive.output", "outputs", ar, mut(ar, outputs=["lib2.a"]))
     return P
 
 
